@@ -62,7 +62,7 @@ type CompScenario struct {
 	// CbFail: child CbFail-1 is made to fail (real error) from inside the callback of the first Reload(), and the
 	// callback then waits for Run() to return: a failure propagates while a reload is parked in user code
 	CbFail int `json:"cbFail,omitempty"`
-	// StopErr: child StopErr-1 answers Stop() by returning a real error from its Run (a listener that reports "closed
+	// StopErr: child StopErr-1 answers Stop() or the end of its context by returning a real error from its Run (a listener that reports "closed
 	// while serving"): during the composite's own shutdown that is not a failure of a Running composite
 	StopErr int `json:"stopErr,omitempty"`
 	// SlowPublish: the publication of the state Reloading to the state subscribers is delayed by 3 ms (see publishDelay)
@@ -122,6 +122,9 @@ func (c *compChild) Run(ctx context.Context) error {
 	select {
 	case <-ctx.Done():
 		out = "c"
+		if c.stopErr { // a server that reports "listener closed" rather than the context's error
+			out = "e"
+		}
 	case <-stopCh:
 		if c.stopErr {
 			out = "e"
